@@ -667,8 +667,8 @@ theorem drm_roundtrip (v : List (Bytes × LocSet)) (hv : CanonDrm v) :
   unfold drmToString
   by_cases h : isAllDrm (v.map drmItemText) = true
   · simp only [h, if_true]
-    exact ⟨_, drmFromString_all, isAllDrm_spec v hv h, by simp [h]⟩
-  · simp only [h, if_false]
+    exact ⟨_, drmFromString_all, isAllDrm_spec v hv h, fun hf => by cases hf⟩
+  · simp only [h]
     exact ⟨v, drm_roundtrip_list v hv, fun _ => Iff.rfl, fun _ => rfl⟩
 
 
